@@ -18,7 +18,7 @@ func propC08() Property {
 			"R2: in the logon state every call that can reach an application callback or a send is dominated by MsgType == Logon. R3: stateMachine.State has exactly two writers (the transition function and Start); OnLogout and OnLogon are each invoked from exactly one function; the OnLogout function is reached only from the transition function under cur.IsConnected ∧ ¬next.IsConnected (or the connect-outside-session-time arm), and where it can be re-entered through its own callees the call is protected by a re-entrancy flag set before and cleared after. " +
 			"R4: every channel send to the connection is in a function that first tests messageOut != nil; every close(messageOut) is followed on all paths by messageOut = nil. " +
 			"R5: in the disconnect handler the reads of the state that decide OnLogout, and the OnLogout call itself, come before any call that can re-enter inbound processing (the drain of buffered messages), which may change the state. " +
-			"R6: a logged-on state that delegates an inbound message to the in-session handler (the recovery state) returns itself only when the delegate's result is still logged on: when the engine has sent its Logout (logout state) or disconnected, the wrapper must not put the session back into a logged-on state. R7: a state handler that has initiated the engine's Logout returns, on every return reachable from that call, the logout state (or delegates / takes the send-failure exit) — never its own logged-on state.",
+			"R6: a logged-on state that delegates an inbound message to the in-session handler (the recovery state) returns itself only when the delegate's result is still logged on: when the engine has sent its Logout (logout state) or disconnected, the wrapper must not put the session back into a logged-on state. R7: a state handler that has initiated the engine's Logout returns, on every return reachable from that call, the logout state (or delegates / takes the send-failure exit) — never its own logged-on state. R8: in the function that invokes OnLogon, every return that lets the session become logged on (nil error, or the too-high error that starts a recovery) comes after the OnLogon call. R9: the logout state's handlers return the logout state, the latent state, or the delegate's result only when that is the latent state.",
 		NotDecided: "'exactly one' as a count over event histories (R3 shows a unique guarded, non-re-entrant site, not a trace count); delivery to the application outside logon (C06 decides the gate).",
 		Rules: []RuleDef{
 			{ID: "C08-R1", Desc: "wire sends only when logged on / Logon-Logout / replay", Min: 4, Run: c08R1},
@@ -28,6 +28,8 @@ func propC08() Property {
 			{ID: "C08-R5", Desc: "logout decision taken before buffered input is drained", Min: 1, Run: c08R5},
 			{ID: "C08-R6", Desc: "a logged-on wrapper state never survives its delegate leaving the logged-on set", Min: 1, Run: c08R6},
 			{ID: "C08-R7", Desc: "a handler that initiated the Logout returns the logout state", Min: 3, Run: c08R7},
+			{ID: "C08-R8", Desc: "OnLogon precedes every return that makes the session logged on", Min: 2, Run: c08R8},
+			{ID: "C08-R9", Desc: "the logout state never hands the session back to a logged-on state", Min: 2, Run: c08R9},
 		},
 	}
 }
@@ -685,5 +687,98 @@ func c08R7(c *Ctx) {
 	}
 	if n == 0 {
 		c.Violation("", "-", "no-logout-initiation", "no state handler initiates a Logout")
+	}
+}
+
+// C08-R8: every logged-on period starts with a logon notification. In the function that invokes
+// OnLogon, every return that lets the session become logged on — a nil error, or the too-high
+// error that starts a recovery (the recovery state is logged on) — comes after the OnLogon call.
+// C08-R9: once the engine's Logout is out, nothing puts the session back into a logged-on state:
+// the logout state's handlers return the logout state, the latent state, or the delegate's
+// result only when that result is the latent (not logged on) state.
+func c08R8(c *Ctx) {
+	p := c.P
+	g := getGate(p)
+	n := 0
+	for _, fn := range p.FuncsIn(modPath) {
+		var on ssa.CallInstruction
+		for _, cl := range Calls(fn) {
+			if cl.Common().IsInvoke() && cn(cl.Common().Method) == "OnLogon" {
+				on = cl
+			}
+		}
+		if on == nil || fn.Signature.Results().Len() != 1 || !isErrorType(fn.Signature.Results().At(0).Type()) {
+			continue
+		}
+		mf := &MustFlow{Fn: fn, Transfer: func(in ssa.Instruction, s Set) {
+			if in == on.(ssa.Instruction) {
+				s["notified"] = true
+			}
+		}}
+		for r, st := range mf.AtReturns() {
+			ev := r.Results[0]
+			o := p.Origin(ev)
+			tooHigh := false
+			o.Mentions(func(x *Org) bool {
+				if x.Kind == "call" && x.Callee == g.tooHigh {
+					tooHigh = true
+				}
+				if x.Val != nil {
+					if mi, ok := x.Val.(*ssa.MakeInterface); ok && typeName(mi.X.Type()) == "targetTooHigh" {
+						tooHigh = true
+					}
+				}
+				return false
+			})
+			if mi, ok := ev.(*ssa.MakeInterface); ok && typeName(mi.X.Type()) == "targetTooHigh" {
+				tooHigh = true
+			}
+			if !p.possibleSuccess(r) && !tooHigh {
+				continue
+			}
+			n++
+			c.Check(st["notified"], FuncName(fn), p.InstrPos(r), "logon-notified-before-logged-on", "OnLogon precedes this return",
+				"the logon handler can return "+o.String()+" — which makes the session logged on (in session, or recovering after a too-high Logon) — without having called OnLogon: application messages are then delivered and sent in a logged-on period the application was never told about, and it ends with an OnLogout that has no OnLogon")
+		}
+	}
+	if n == 0 {
+		c.Violation("", "-", "no-logon-handler", "no error-returning function invokes OnLogon")
+	}
+}
+
+func c08R9(c *Ctx) {
+	p := c.P
+	lo := p.Named(modPath, "logoutState")
+	n := 0
+	for _, fn := range p.FuncsIn(modPath) {
+		if fn.Signature.Recv() == nil || !types.Identical(fn.Signature.Recv().Type(), lo) || fn.Signature.Results().Len() != 1 || typeName(fn.Signature.Results().At(0).Type()) != "sessionState" {
+			continue
+		}
+		for _, b := range fn.Blocks {
+			ret, ok := b.Instrs[len(b.Instrs)-1].(*ssa.Return)
+			if !ok {
+				continue
+			}
+			for _, alt := range p.valueAlternatives(ret.Results[0], b, 0) {
+				n++
+				switch x := alt.val.(type) {
+				case *ssa.MakeInterface:
+					tn := typeName(x.X.Type())
+					c.Check(tn == "logoutState" || tn == "latentState", FuncName(fn), p.InstrPos(ret), "after-logout-state", "returns "+tn, "after the engine's Logout the logout state hands the session to "+tn+", a logged-on state: application messages are transmitted again after the Logout")
+				default:
+					// a delegate's result: only when it is shown not logged on
+					okG := alt.cond.Implies(func(a *Atom) bool {
+						if a.Rel == "" && a.Val && a.B.Kind == "typeassert" && a.B.Res == 1 && typeName(a.B.AssTyp) == "latentState" {
+							return true
+						}
+						return a.Rel == "" && !a.Val && a.B.Kind == "call" && a.B.Method != nil && cn(a.B.Method) == "IsLoggedOn"
+					})
+					c.Check(okG, FuncName(fn), p.InstrPos(ret), "after-logout-delegate", "the delegate's result is handed on only when it is the latent state", "after the engine's Logout the logout state returns the in-session handler's result under "+alt.cond.String()+", which does not confine it to the latent state: a too-high message makes it the recovery state, the session is logged on again and application messages are transmitted after the Logout")
+				}
+			}
+		}
+	}
+	if n == 0 {
+		c.Violation("", "-", "no-logout-state-handlers", "the logout state has no state-returning handlers")
 	}
 }
